@@ -42,6 +42,9 @@ def run(tier, seed):
     known = vlib.load_known()
     quick = tier == "quick"
     hs = histories(tier, seed, res)
+    # design level: the greedy max-bottleneck peeling as a state machine, on every planted flow of the DAG universe
+    P.design_mc(res, "Greedy", "MC_Greedy.cfg", vlib.universe("dag", 4, k=3, w=3, cap=12, path_only=True),
+                what="peeling keeps a conserving residual, ends at zero, uses <= |E|-|V|+2 (+extra sources/sinks) paths, terminates")
     dag = vlib.universe("dag", 4, k=3, w=3, cap=12)
     cyc = vlib.universe("cyc", 3, maxe=9, k=2, w=2, l=1, cap=6)
     cyc4 = vlib.universe("cyc", 4, maxe=6, k=2, w=2, l=1, cap=4)
